@@ -87,6 +87,9 @@ def kinds():
       'pos': K('pos', 3, True, mk_pos, True),
       'dc': K('dc', 2, True, mk_dc, True),
       'par': K('par', 2, True, mk(fdl.Partial, N.node), True),
+      'parkw': K('parkw', 2, True, lambda vals: fdl.Partial(N.node_kw, **{
+          n: v for n, v in zip(('x', 'extra'), vals)
+          if v is not shapes.UNSET}), True),
       'list2': K('list2', 2, False, list),
       'tuple2': K('tuple2', 2, False, tuple),
       'dict1': K('dict1', 1, False, lambda v: {'k': v[0]}),
@@ -96,7 +99,7 @@ def kinds():
 
 
 MUT_EQ = ['m']          # equal to N.MUT_DEFAULT, a different (shared) object
-LEAVES = ['L1', 'dy', MUT_EQ, 'dp0']
+LEAVES = ['L1', 'dy', MUT_EQ, 'dp0', 'dx']
 ROOTS = None
 NCHUNK = 48
 FULL = ['cfg', 'mut', 'pos', 'dc', 'par', 'list2', 'tuple2', 'tv']
@@ -107,12 +110,13 @@ def bounds(tier):
   if tier == 'quick':
     return dict(families=[
         [['cfg', 'mut', 'dc', 'par', 'list2', 'tuple2', 'tv'], 2, 3],
+        [['parkw', 'cfg', 'list2'], 2, 2],
         [['pos'], 1, 4],
         [['pos', 'list2'], 2, 2],
         [['mut2', 'list2', 'tv'], 3, 1],
     ], dc_depth=2)
   return dict(families=[
-      [FULL + ['dict1'], 2, 3],
+      [FULL + ['dict1', 'parkw'], 2, 3],
       [['pos', 'cfg', 'list2'], 2, 4],
       [['mut2', 'par', 'list2', 'tv'], 3, 3],
       [['cfg', 'mut', 'par', 'list2'], 3, 3],
